@@ -131,10 +131,24 @@ class Exec:
         return {"size": cap(size), "low": cap(low), "high": cap(high), "consumed": cap(self.consumed),
                 "steps": self.loop.steps - self.steps0}
 
+    QUIESCENT = ("net", "read", "start", "eof", "err", "srv", "stuck")
+
     def rec(self, ev: str, s: str = "", n: int = 0, m: int = 0, k: int = 0) -> None:
         if self.sealed:                 # tear-down of the harness itself is not part of the execution
             return
-        self.events.append({"ev": ev, "s": s, "n": n, "m": m, "k": k, "obs": self.obs()})
+        o = self.obs()
+        # st only NAMES a failure (StalePause...): outside a parser call, is the payload parser's pause
+        # request still pending although it holds nothing back?  (private peek, 0 if the attributes are gone)
+        o["st"] = self.stale_flag() if ev in self.QUIESCENT else 0
+        self.events.append({"ev": ev, "s": s, "n": n, "m": m, "k": k, "obs": o})
+
+    def stale_flag(self) -> int:
+        try:
+            p = self.proto._parser
+            pp = p._payload_parser
+            return 1 if (pp is not None and pp._paused and not p._payload_has_more_data) else 0
+        except Exception:  # noqa: BLE001
+            return 0
 
     def tap(self, tr: Any, proto: Any) -> None:
         self.tr, self.proto = tr, proto
@@ -614,3 +628,394 @@ def judge(ctx: Ctx, traces: List[dict], label: str) -> None:
     t0 = traces[0]
     ctx.sample({"src": t0["src"], "name": t0["name"], "cfg": t0["cfg"],
                 "events": [{k: e[k] for k in ("ev", "s", "n", "m", "k")} for e in t0["events"][:10]]})
+
+
+# ---------------------------------------------------------------- model configurations
+BASE_CONSTS: Dict[str, Any] = dict(
+    Mode='"Chunked"', Codec='"zlib"', Side='"client"', Limit=1, Big=6, MaxPieces=4, MaxUnits=1,
+    ReadSizes="{1, 3, 1000}", ClientMax=2, WithMembers="FALSE", WithCorrupt="FALSE", WithTrunc="FALSE", MidChunkCuts="TRUE", ZeroUnits="TRUE",
+    ClearStalePause="TRUE", EofKeepsParser="TRUE", UseBudget="TRUE", ResumeReenters="TRUE",
+    PauseReachesParser="TRUE", KeepPending="TRUE", CheckEachChunk="TRUE", ErrChecked="TRUE")
+SAFETY = ["Resident", "OneCallBudget", "NoInputLost", "ErrorNotData", "NoDeadlock", "NoSpuriousFailure",
+          "HeldBackImpliesPaused", "MaxSize", "NeverReturnsMore"]
+
+
+def write_cfg(over: Dict[str, Any], *, spec: str = "Spec", invs: Optional[List[str]] = None,
+              props: Optional[List[str]] = None) -> str:
+    c = dict(BASE_CONSTS)
+    for k, v in over.items():
+        c[k] = f'"{v}"' if k in ("Mode", "Codec", "Side") else ("TRUE" if v is True else "FALSE" if v is False else v)
+    t = f"SPECIFICATION {spec}\nCONSTANTS\n" + "".join(f"  {k} = {v}\n" for k, v in c.items())
+    t += "".join(f"INVARIANT {i}\n" for i in (SAFETY if invs is None else invs))
+    t += "".join(f"PROPERTY {p}\n" for p in (["ErrStopsFeed"] if props is None else props))
+    d = mktemp("c09cfg")
+    p = os.path.join(d, "BodyFlow.cfg")
+    with open(p, "w") as f:
+        f.write(t)
+    return p
+
+
+def cname(over: Dict[str, Any]) -> str:
+    return "BodyFlow(" + ",".join(f"{k}={v}" for k, v in over.items()) + ")"
+
+
+def code_keeps_stale_pause(loop: steploop.StepLoop) -> bool:
+    """Which model configuration mirrors the code?  A tiny concrete probe of the pure-Python payload
+    parser: does a pause request that found nothing to hold back survive the feed_data call?"""
+    from aiohttp.base_protocol import BaseProtocol
+    from aiohttp.http_parser import HeadersParser, HttpPayloadParser
+    from aiohttp.streams import StreamReader
+
+    class P(BaseProtocol):
+        def pause_reading(self) -> None:       # what BaseProtocol.pause_reading does to the parser
+            pp.pause_reading()
+
+        def resume_reading(self, resume_parser: bool = True) -> None:
+            pass
+
+    proto = P(loop)
+    rd = StreamReader(proto, 2, loop=loop)
+    pp = HttpPayloadParser(rd, chunked=True, headers_parser=HeadersParser(), limit=2)
+    pp.feed_data(b"5\r\nabcde\r\n")
+    return bool(getattr(pp, "_paused", False))
+
+
+# ---------------------------------------------------------------- driver A: model behaviours -> real pipeline
+UNIT = 128
+
+
+class Replay(Exec):
+    """Consumer driven by commands; afterwards free-running to the end of the body."""
+
+    def __init__(self, loop: steploop.StepLoop, plan: dict) -> None:
+        super().__init__(loop, plan)
+        self.cmd: Optional[asyncio.Future] = None
+        self.free = False
+        self.waiting_cmd = False
+
+    async def next_cmd(self) -> tuple:
+        if self.free:
+            return ("readany",)
+        self.cmd = self.loop.create_future()
+        self.waiting_cmd = True
+        try:
+            return await self.cmd
+        finally:
+            self.waiting_cmd = False
+            self.cmd = None
+
+    def command(self, op: tuple) -> bool:
+        if self.cmd is None or self.cmd.done():
+            return False
+        self.cmd.set_result(op)
+        return True
+
+    def go_free(self) -> None:
+        self.free = True
+        if self.cmd is not None and not self.cmd.done():
+            self.cmd.set_result(("readany",))
+
+    async def consume_cmds(self, content: Any) -> None:
+        self.reader = content
+        self.rec("start")
+        iters: dict = {}
+        try:
+            while True:
+                op = await self.next_cmd()
+                _d, end = await self.one_read(content, op, iters)
+                if end:
+                    return
+        except asyncio.CancelledError:
+            raise
+        except MachineryError:
+            raise
+        except Exception as exc:  # noqa: BLE001
+            self.rec_err(exc)
+            for _ in range(2):
+                try:
+                    await self.one_read(content, ("readany",), iters)
+                except asyncio.CancelledError:
+                    raise
+                except Exception as exc2:  # noqa: BLE001
+                    self.rec_err(exc2)
+
+
+_act_re = __import__("re").compile(r"(\w+)(?:\((.*)\))?$")
+
+
+def replay_behaviour(ctx: Ctx, loop: steploop.StepLoop, beh: List[Any], consts: Dict[str, Any], src: str) -> Optional[dict]:
+    """Impose one BodyFlow behaviour on the real client pipeline, then let it run to completion."""
+    global _CUR
+    from engine.clikit import ClientKit
+
+    mode, mcodec, limit_u = consts["Mode"], consts["Codec"], int(consts["Limit"])
+    codec = {"zlib": "gzip", "zstd": "zstd", "identity": "identity"}[mcodec]
+    framing = {"Length": "length", "Chunked": "chunked", "UntilEOF": "eof"}[mode]
+    rng = ctx.rng
+    # ---- pass 1: the pieces the peer sends (model NetSend actions), closed properly by the harness
+    sends: List[Tuple[List[int], bool]] = []
+    prev_inbox_len = 0
+    for lbl, st in beh[1:]:
+        if lbl.startswith("NetSend"):
+            piece = st["inbox"][-1]
+            sends.append((list(piece["u"]), bool(piece["fin"])))
+    extra_close = framing != "eof" and not (sends and sends[-1][1])
+    planned = sends + ([([1], True)] if extra_close else [])
+    uc = B.UnitCodec(codec, UNIT, rng)
+    wire_pieces: List[bytes] = []
+    for idx, (us, fin) in enumerate(planned):
+        ubytes = [uc.unit(u) for u in us]
+        if idx == len(planned) - 1:
+            ubytes[-1] = ubytes[-1] + uc.close()
+        if framing == "chunked":
+            out = b"".join(b"%x\r\n%s\r\n" % (len(b), b) for b in ubytes if b)
+            if fin:
+                out += b"0\r\n\r\n"
+        else:
+            out = b"".join(ubytes)
+        wire_pieces.append(out)
+    total = sum(len(p) for p in wire_pieces)
+    ref = B.Ref(uc.ok, bytes(uc.plain), "" if uc.ok else "corrupt")
+    hs = ["HTTP/1.1 200 OK"]
+    if B.header_value(codec):
+        hs.append("Content-Encoding: " + B.header_value(codec))
+    hs.append({"length": f"Content-Length: {total}", "chunked": "Transfer-Encoding: chunked",
+               "eof": "Connection: close"}[framing])
+    head = ("\r\n".join(hs) + "\r\n\r\n").encode()
+    plan = {"side": "client", "codec": codec, "framing": framing, "limit": limit_u * UNIT, "ref": ref, "enc": b"",
+            "name": f"{src}/{mode}/{mcodec}", "kind": src, "src": src, "inLen": total,
+            "maxPiece": max([len(p) for p in wire_pieces] or [0]), "pauses": 8 * len(beh), "gap": 0}
+    x = Replay(loop, plan)
+    kit = ClientKit(loop)
+    kit.on_create = lambda pc: x.tap(pc.tr, pc.proto)
+
+    async def go() -> None:
+        try:
+            r = await kit.session.get("http://h/p", read_bufsize=plan["limit"])
+        except asyncio.CancelledError:
+            raise
+        except Exception as exc:  # noqa: BLE001
+            x.rec_err(exc)
+            x.done = True
+            return
+        try:
+            await x.consume_cmds(r.content)
+        finally:
+            x.done = True
+
+    def project_check(st: dict) -> None:
+        """Refinement only: the real pipeline agrees with the model state (pc = idle)."""
+        if st.get("pc") != "idle" or x.reader is None or x.in_read or st["rexc"] or st["pst"] != "open":
+            return
+        real = x.reader.total_bytes - x.consumed
+        msize = sum(st["buf"]) * UNIT
+        if real != msize:
+            ctx.drift("replay:size")
+            if os.environ.get("C09_DEBUG"):
+                print("DRIFT size", real, msize, [l for l, _ in beh[1:]], file=sys.stderr)
+        if bool(st["tPaused"]) != bool(x.tr.reading_paused) and st["connected"]:
+            ctx.drift("replay:transport-paused")
+            if os.environ.get("C09_DEBUG"):
+                print("DRIFT tp", x.tr.reading_paused, st["tPaused"], [l for l, _ in beh[1:]], file=sys.stderr)
+
+    _CUR = x
+    try:
+        t = kit.spawn("r1", go())
+        loop.run_until_idle()
+        c = kit.conns[0]
+        c.feed(head)
+        loop.run_until_idle()
+        q: List[bytes] = []
+        nsent = 0
+        closed = False
+        prev = beh[0][1]
+        for lbl, st in beh[1:]:
+            m = _act_re.match(lbl)
+            a = m.group(1) if m else lbl
+            ctx.action_cover[a] = ctx.action_cover.get(a, 0) + 1
+            if a in ("NetSend", "NetDeliver", "NetEofDeliver", "ConsumerRead"):
+                project_check(prev)
+            if a == "NetSend":
+                q.append(wire_pieces[nsent])
+                nsent += 1
+            elif a == "NetDeliver":
+                if x.tr.reading_paused:
+                    ctx.drift("replay:deliver-while-paused")
+                if q:
+                    c.feed(q.pop(0))
+                loop.run_until_idle()
+            elif a == "NetEofDeliver":
+                if not closed:
+                    c.close_by_peer()
+                    closed = True
+                loop.run_until_idle()
+            elif a == "ConsumerRead":
+                n = int(m.group(2)) if m and m.group(2) else 1
+                if x.done:
+                    pass
+                elif not x.command(("readstep",) if n >= 1000 else ("read", n * UNIT)):
+                    ctx.drift("replay:consumer-blocked")
+                loop.run_until_idle()
+            prev = st
+        project_check(prev)
+        # ---- completion: the peer finishes the body, the application reads to the end
+        rest = q + wire_pieces[nsent:]
+        x.go_free()
+        close_after = (framing == "eof") and not closed
+        x.drive(c.feed, c.close_by_peer, rest, 0, close_after, lambda: x.done or t.done())
+    finally:
+        _CUR = None
+        kit.close()
+    tr = x.trace()
+    tr["plan"] = {"codec": codec, "framing": framing, "kind": src, "limit": plan["limit"],
+                  "actions": [lbl for lbl, _ in beh[1:]], "consts": {k: str(v) for k, v in consts.items()}}
+    return tr
+
+
+# ---------------------------------------------------------------- the check
+def model_phase(ctx: Ctx, loop: steploop.StepLoop, stale: bool) -> List[dict]:
+    """TLC over the design (all interleavings, deadlock check on, liveness) + the as-coded deviations."""
+    traces: List[dict] = []
+    q = ctx.quick
+    mp = 4 if q else 4
+    mu = 1 if q else 2
+    ideal: List[Dict[str, Any]] = [
+        dict(Mode="Chunked", Codec="zlib", Limit=1, MaxPieces=mp, MaxUnits=mu),
+        dict(Mode="Length", Codec="zstd", Limit=2, MaxPieces=mp, MaxUnits=mu),
+        dict(Mode="UntilEOF", Codec="zlib", Limit=1, MaxPieces=ctx.pick(3, 4), MaxUnits=ctx.pick(1, 2), WithMembers=True),
+        dict(Mode="Chunked", Codec="identity", Limit=1, MaxPieces=mp, MaxUnits=mu),
+        dict(Mode="Length", Codec="zlib", Limit=1, MaxPieces=3, MaxUnits=ctx.pick(1, 2), WithCorrupt=True, WithTrunc=True),
+        dict(Mode="Length", Codec="zlib", Limit=1, MaxPieces=mp, MaxUnits=ctx.pick(1, 2), Side="server", ClientMax=2),
+    ]
+    if not q:
+        for mode in ("Length", "Chunked", "UntilEOF"):
+            for codec in ("zlib", "zstd", "identity"):
+                for lim in (1, 2):
+                    ideal.append(dict(Mode=mode, Codec=codec, Limit=lim, MaxPieces=4, MaxUnits=2,
+                                      WithMembers=(codec != "identity")))
+        ideal.append(dict(Mode="Chunked", Codec="zstd", Limit=2, MaxPieces=4, MaxUnits=2, WithCorrupt=True, WithTrunc=True))
+        ideal.append(dict(Mode="Chunked", Codec="zlib", Limit=2, MaxPieces=4, MaxUnits=2, Side="server", ClientMax=3))
+    for over in ideal:
+        res = run_tlc("BodyFlow", write_cfg(over), workers=16, timeout=ctx.pick(400, 2400), deadlock=True, coverage=False)
+        ok = ctx.expect_model_ok(cname(over), res)
+        ctx.log(f"model {cname(over)}: {res.distinct} states, ok={ok}, {res.wall_s:.0f}s")
+    # liveness under weak fairness, no state constraint
+    for over in ctx.pick([dict(Mode="Chunked", Codec="zlib", Limit=1, MaxPieces=2, MaxUnits=2)],
+                         [dict(Mode=m, Codec=c, Limit=1, MaxPieces=3, MaxUnits=2)
+                          for m, c in (("Chunked", "zlib"), ("UntilEOF", "zstd"), ("Length", "identity"), ("Chunked", "identity"))]):
+        res = run_tlc("BodyFlow", write_cfg(over, spec="FairSpec", invs=[], props=["Progress", "ReachesEof"]),
+                      workers=16, timeout=ctx.pick(400, 2400), deadlock=True)
+        ok = ctx.expect_model_ok("liveness " + cname(over), res)
+        ctx.log(f"liveness {cname(over)}: {res.distinct} states, ok={ok}, {res.wall_s:.0f}s")
+    # the code as found: TLC exhibits the consequences of the stale pause flag; the counterexample is
+    # imposed on the real pipeline and judged like every other execution
+    if stale:
+        for over in (dict(Mode="Chunked", Codec="identity", Limit=1, MaxPieces=3, MaxUnits=1, MidChunkCuts=False,
+                          ClearStalePause=False, EofKeepsParser=False),):
+            res = run_tlc("BodyFlow", write_cfg(over, invs=["NoDeadlock", "NoSpuriousFailure"], props=[]),
+                          workers=4, timeout=300, deadlock=False)
+            require_clean(res, "as-coded " + cname(over))
+            ctx.add_model("as-coded " + cname(over), res, exhaustive=False)
+            ctx.log(f"as-coded {cname(over)}: violated={res.violated} after {res.distinct} states")
+            if res.violated and res.trace:
+                full = full_consts(over)
+                beh = [("Init", res.trace[0][1])] + [(a, s) for a, s in res.trace[1:]]
+                tr = replay_behaviour(ctx, loop, beh, full, "tlc-counterexample")
+                if tr is not None:
+                    tr["expect_dev"] = True
+                    traces.append(tr)
+            else:
+                ctx.drift("as-coded model shows no deviation")
+    return traces
+
+
+def full_consts(over: Dict[str, Any]) -> Dict[str, Any]:
+    full = {k: (v.strip('"') if isinstance(v, str) else v) for k, v in BASE_CONSTS.items()}
+    full.update(over)
+    return full
+
+
+def replay_phase(ctx: Ctx, loop: steploop.StepLoop, stale: bool) -> List[dict]:
+    """Driver A: transition cover of a small graph + simulated behaviours, on the configuration that mirrors the code."""
+    dev = dict(ClearStalePause=not stale, EofKeepsParser=not stale, MidChunkCuts=False)
+    traces: List[dict] = []
+    cov = dict(Mode="Chunked", Codec="zlib", Limit=1, MaxPieces=2, MaxUnits=1, ReadSizes="{1, 1000}", **dev)
+    behs, cres = cover_behaviours("BodyFlow", write_cfg(cov, invs=[], props=[]), timeout=600)
+    ctx.extra["transition_cover"] = {"model": cname(cov), "paths": len(behs),
+                                     "edges_traversed": sum(len(b) - 1 for b in behs), "states": cres.distinct}
+    for b in behs:
+        tr = replay_behaviour(ctx, loop, b, full_consts(cov), "tlc-cover")
+        if tr is not None:
+            traces.append(tr)
+    ctx.log(f"replayed {len(behs)} transition-cover paths of {cname(cov)} ({cres.distinct} states)")
+    sims = [dict(Mode="Chunked", Codec="zlib", Limit=2, MaxPieces=4, MaxUnits=2, WithMembers=True, WithCorrupt=True, **dev),
+            dict(Mode="Length", Codec="zlib", Limit=1, MaxPieces=4, MaxUnits=2, WithMembers=True, **dev),
+            dict(Mode="UntilEOF", Codec="zlib", Limit=1, MaxPieces=4, MaxUnits=2, **dev),
+            dict(Mode="Chunked", Codec="identity", Limit=1, MaxPieces=4, MaxUnits=2, **dev),
+            dict(Mode="UntilEOF", Codec="identity", Limit=2, MaxPieces=4, MaxUnits=2, **dev)]
+    if ctx.quick:
+        sims = sims[:1] + sims[3:4] + sims[1:2]
+    for over in sims:
+        bs, _ = simulate_behaviours("BodyFlow", write_cfg(over, invs=[], props=[]), num=ctx.pick(60, 600),
+                                    depth=ctx.pick(60, 80), seed=ctx.seed, timeout=300)
+        for b in bs:
+            tr = replay_behaviour(ctx, loop, b, full_consts(over), "tlc-sim")
+            if tr is not None:
+                traces.append(tr)
+    ctx.log(f"replayed {len(traces)} model behaviours in total; actions: {dict(ctx.action_cover)}")
+    return traces
+
+
+def run(ctx: Ctx) -> None:
+    ctx.rule = ("executions = behaviours of BodyFlow (transition cover, simulation, counterexamples of the as-coded "
+                "configuration) rendered to unit-structured gzip/identity payloads and imposed on a real ClientSession "
+                "+ corpus (random, bombs, members, empty members, truncations, bit flips) x identity/chunked/EOF framing "
+                "x segmentations x consumer schedules x read_bufsize, client side and server side (read/post/stream, "
+                "client_max_size); distinct = (side, body, limit, outcome, control-event sequence, length class)")
+    ctx.assumptions = [
+        "zlib, brotli and zstd are trusted: the reference decoding is their one-shot decode; the digest is CRC-32 (31 bits)",
+        "Brotli's output_buffer_limit is soft (block granularity): one call may return < 2*limit + 32 KiB",
+        "the transport honours pause_reading: no data and no EOF is delivered while paused (engine.memnet)",
+        "decode calls are observed by wrapping decompress_sync in the harness process; buffered size = "
+        "total_bytes - bytes read (public counters), the reader's own counter only inside a read call",
+        "HTTP 'deflate' = zlib stream, raw deflate accepted when the first byte does not announce CM=8",
+        "reads with no size limit (read(), read(-1)) lift the memory bound by design (water marks = sys.maxsize)",
+    ]
+    install_wrappers()
+    loop = steploop.new_loop()
+    stale = code_keeps_stale_pause(loop)
+    ctx.extra["code_keeps_stale_pause_flag"] = stale
+    ctx.log(f"probe: payload parser keeps a stale pause request: {stale}")
+    traces = model_phase(ctx, loop, stale)
+    traces += replay_phase(ctx, loop, stale)
+    judge(ctx, traces, "model-replay")
+    # the as-coded counterexample must be exhibited by the code, otherwise the model does not mirror it
+    for t in traces:
+        if t.get("expect_dev"):
+            hit = any(v.source == "trace" and v.detail["trace"].get("name") == t["name"]
+                      and v.clause.startswith("StalePause") for v in ctx.violations)
+            if not hit:
+                ctx.drift("as-coded counterexample not reproduced by the code")
+    # ---- drivers B and C
+    rng = ctx.rng
+    bodies = B.corpus(rng, ctx.quick)
+    plans = client_plans(ctx, rng, bodies, ctx.pick(2, 12))
+    plans += server_plans(ctx, rng, bodies + form_bodies(rng), ctx.pick(1, 4))
+    plans += bomb_plans(ctx, rng)
+    ctx.log(f"{len(plans)} corpus executions planned ({len(bodies)} bodies)")
+    batch: List[dict] = []
+    nev = 0
+    kinds: Dict[str, int] = {}
+    for p in plans:
+        tr = run_plan(loop, p)
+        kinds[p.get("kind", "?")] = kinds.get(p.get("kind", "?"), 0) + 1
+        batch.append(tr)
+        nev += len(tr["events"])
+        if nev > 150000:
+            judge(ctx, batch, "corpus")
+            batch, nev = [], 0
+    judge(ctx, batch, "corpus")
+    ctx.extra["corpus_kinds"] = kinds
+    ctx.extra["replay_action_counts"] = dict(ctx.action_cover)
+    ctx.evaluations = ctx.traces
+    loop.uninstall()
